@@ -96,7 +96,9 @@ func (i *ReceiverInterceptor) BindRemoteStream(
 			}
 			nlen, err := newPkt.MarshalTo(b)
 
-			return nlen, attr, err
+			// The packet handed on is not the one that was just read: the attributes of that
+			// read (with the header parsed into them) describe a different packet.
+			return nlen, interceptor.Attributes{}, err
 		}
 
 		return n, attr, ErrPopWhileBuffering
